@@ -330,6 +330,26 @@ func runCheck(o *Options, e *Engine, prop string) *CheckRun {
 				}
 			default:
 				ob.Status = ans.Status
+				if ob.cx.bc != nil && ob.cx.bc.C.Replay != "" {
+					// look for a candidate counterexample without the quantified hypotheses
+					ob.cx.w.mu.Lock()
+					refs := ob.refutations()
+					ob.cx.w.mu.Unlock()
+					for ri, rf := range refs {
+						if ri >= 8 {
+							break
+						}
+						file := filepath.Join(dir, fmt.Sprintf("q%05d_relaxed%d.smt2", i, ri))
+						os.WriteFile(file, []byte(ob.QueryRelaxed(rf)), 0o644)
+						ra := runOne("z3-new", file, 6)
+						if ra.Status == "sat" {
+							ob.Relaxed = true
+							ob.Model = ra.Output
+							ob.Output = ans.Output + "\n--- candidate counterexample (quantified hypotheses dropped) ---\n" + ra.Output
+							break
+						}
+					}
+				}
 			}
 		}(i, ob)
 	}
@@ -473,6 +493,12 @@ func report(o *Options, e *Engine, run *CheckRun) int {
 				fmt.Printf("VIOLATION property=%s replay=%s obligation=%q no-failing-input-found\n", prop, path, shortName(ob.Name))
 			}
 		default:
+			if ob.Relaxed {
+				if tryReplayRelaxed(o, e, ob, path) == "reproduced" {
+					fmt.Printf("VIOLATION property=%s replay=%s obligation=%q status=%s\n", prop, path, shortName(ob.Name), ob.Status)
+					break
+				}
+			}
 			fmt.Printf("VIOLATION property=%s replay=%s obligation=%q status=%s no-failing-input-found\n", prop, path, shortName(ob.Name), ob.Status)
 		}
 		violations++
